@@ -420,3 +420,47 @@ def compare_journal(ctx, res, prop, j, xs, bucket=None):
     if errs.get('unlocated'):
         res.notes.append('unlocated errors in %s: %s' % (jid, errs['unlocated'][:3]))
     return rows, rejected, errs, st, text
+
+
+COST_ONLY = 'ZZZ'     # a commodity that appears in costs only: costs teach the pool nothing, so its display
+                      # precision stays 0 and small totals in it are display-zero without being zero
+
+
+def gen_cost_only(rng, nother=None):
+    """a purchase priced in the cost-only commodity for a total below half a unit, paid by an elided
+    posting, among 0-2 other commodities whose postings cancel exactly"""
+    units = rng.randrange(1, 49)
+    price = F(rng.randrange(1, 49), 100 * units) if rng.random() < 0.5 else F(1, 100)
+    dec = 2
+    while price * 10 ** dec != int(price * 10 ** dec) and dec < 8:
+        dec += 1
+    price = F(int(price * 10 ** dec), 10 ** dec) or F(1, 100)
+    kind = 'u' if rng.random() < 0.7 else 't'
+    cost = (kind, Amt(price if kind == 'u' else price * units, dec, COST_ONLY))
+    costed = Post('Assets:Broker:X', 'R', Amt(units, 0, 'AAA'), cost)
+    posts = []
+    for _ in range(rng.randrange(0, 3) if nother is None else nother):
+        s = rng.choice(['BBB', 'CCC', 'EUR'])
+        a = Amt.rand(rng, s)
+        posts += [Post(acct_of(rng, 'R'), 'R', a), Post(acct_of(rng, 'R'), 'R', a.neg())]
+    posts.insert(rng.randrange(0, len(posts) + 1), costed)
+    posts.insert(rng.randrange(0, len(posts) + 1), Post('Null:Assets:Cash', 'R', None))
+    return Xact(posts)
+
+
+def gen_cost_unbalanced(rng):
+    """costs are written (@ or @@, possibly all @@) and the transaction still leaves whole-unit residues
+    in exactly two commodities of opposite sign: no conversion rate may be invented"""
+    x, y, z = rng.sample(list(COMMS), 3)
+    units = rng.randrange(1, 50)
+    total = F(rng.randrange(100, 99999), 100)
+    allfull = rng.random() < 0.5
+    cost = ('t', Amt(total, 2, y)) if allfull or rng.random() < 0.5 else ('u', Amt(F(rng.randrange(100, 9999), 100), 2, y))
+    ctot = cost[1].value if cost[0] == 't' else cost[1].value * units
+    first = Post(acct_of(rng, 'R'), 'R', Amt(F(rng.randrange(1, 500)), 0, z))
+    posts = [first,
+             Post('Assets:Broker:X', 'R', Amt(units, 0, x), cost),
+             Post('Assets:Bank', 'R', Amt(-(ctot + rng.randrange(1, 90)), 2, y))]
+    if rng.random() < 0.4:
+        rng.shuffle(posts)
+    return Xact(posts)
